@@ -5122,6 +5122,11 @@ class PyCdlib:
         if boot_dirrecord.inode is None:
             raise pycdlibexception.PyCdlibInternalError('Tried to add an empty boot dirrecord inode to the El Torito boot catalog')
 
+        if boot_dirrecord.get_data_length() == 0:
+            # An empty file occupies no extent, so there is nothing that the
+            # El Torito entry could point at.
+            raise pycdlibexception.PyCdlibInvalidInput('The El Torito boot file must not be empty')
+
         if boot_info_table:
             orig_len = boot_dirrecord.get_data_length()
             bi_table = eltorito.EltoritoBootInfoTable()
